@@ -12,6 +12,7 @@ container kind carries it:
                 clv  nmtools_static_vector<clipped_size_t<M>,CAP>              (clipped, bounded length)
                 fx   nmtools_array<T,N>          raw  T[N]          tp  nmtools_tuple<T,...> (run-time)
                 sv   nmtools_static_vector<T,CAP>   hy  hybrid_ndarray<T,CAP,1>
+                svt  nmtools_static_vector<T,N>  (TIGHT bound: capacity == length of the baked value; deterministic core only)
                 dy   nmtools_list<T>             mdy  nmtools_maybe<nmtools_list<T>>  mfx nmtools_maybe<nmtools_array<T,N>>
   index scalars ct / lit / cl (clipped_size_t<M>) / rt (T) / none / tt (true_type/false_type) / b (bool)
   arrays        the 15 ndarray_t kinds {c,f,h,d,l}s_{f,h,d}b via nmtools::cast(raw, kind::ndarray_X), their
@@ -52,7 +53,7 @@ CAP = 6          # capacity of bounded containers
 CONST_KINDS = ("ct", "lit")
 CLIPPED_KINDS = ("clt", "cla", "clv")
 FIXEDLEN_KINDS = ("fx", "raw", "tp", "mfx", "cla", "clt")
-BOUNDED_KINDS = ("sv", "hy", "clv")
+BOUNDED_KINDS = ("sv", "hy", "clv", "svt")
 DYN_KINDS = ("dy", "mdy")
 
 CTYPE = {"int": "int", "size_t": "nm_size_t", "long": "long", "unsigned": "unsigned", "i8": "nmtools::int8_t",
@@ -152,7 +153,7 @@ def cfg_kinds(s):
 
 
 KIND_CLASS = {"ct": "const", "lit": "const", "tt": "const", "clt": "clipped", "cla": "clipped", "clv": "clipped", "cl": "clipped",
-              "fx": "fixed", "raw": "fixed", "tp": "fixed", "mfx": "maybe", "mdy": "maybe", "sv": "bounded", "hy": "bounded",
+              "fx": "fixed", "raw": "fixed", "tp": "fixed", "mfx": "maybe", "mdy": "maybe", "sv": "bounded", "hy": "bounded", "svt": "bounded",
               "dy": "dynamic", "rt": "runtime", "b": "runtime", "none": "none", "cx": "constexpr"}
 
 
@@ -274,6 +275,11 @@ def emit_ia(e, a, ac, name, vec, vals, sig):
         e.add("if (%s.size() > %d) { out.tok(\"SKIP\"); return; }" % (vec, CAP))
         e.add("nmtools_static_vector<%s,%d> %s_{}; %s_.resize(%s.size()); c9::fill_seq(%s_, %s); const auto& %s = %s_;" % (
             T, CAP, name, name, vec, name, vec, name, name))
+    elif k == "svt":
+        # bounded length with a TIGHT bound (capacity = length of the baked value), like the shape of a hs_* array
+        e.add("if (%s.size() > %d) { out.tok(\"SKIP\"); return; }" % (vec, n))
+        e.add("nmtools_static_vector<%s,%d> %s_{}; %s_.resize(%s.size()); c9::fill_seq(%s_, %s); const auto& %s = %s_;" % (
+            T, n, name, name, vec, name, vec, name, name))
     elif k == "hy":
         e.add("if (%s.size() > %d) { out.tok(\"SKIP\"); return; }" % (vec, CAP))
         e.add("na::hybrid_ndarray<%s,%d,1> %s_{}; %s_.resize(%s.size()); c9::fill_seq(%s_, %s); const auto& %s = %s_;" % (
@@ -374,7 +380,8 @@ def rshape(rng, n, ext=EXT, lo=1):
 
 class Op:
     def __init__(self, name, headers, args, call, dims, gen, oracle, family="index", norm=None, result="index",
-                 cx=True, weight=1, ext=EXT, parts=None):
+                 cx=True, weight=1, ext=EXT, parts=None, core_dims=()):
+        self.core_dims = list(core_dims)   # signatures only used by the deterministic core (probed, never drawn from the seed)
         self.parts = tuple(parts or ())   # composite view operation: the nested library calls, outermost first
         self.composite = bool(parts)
         self.name = name
@@ -851,7 +858,7 @@ def _o_expand(v):
 
 
 op("shape_expand_dims", ["nmtools/array/index/expand_dims.hpp"], [IA("shape"), IA("axes")],
-   "ix::shape_expand_dims({shape},{axes})", [(1, 1), (2, 1), (2, 2), (3, 1)], _g_expand, _o_expand)
+   "ix::shape_expand_dims({shape},{axes})", [(1, 1), (2, 1), (2, 2), (3, 1)], _g_expand, _o_expand, core_dims=[(1, 2)])
 
 # --- shape_squeeze(shape)
 
@@ -982,7 +989,7 @@ def _o_free(v):
 
 
 op("free_axes", ["nmtools/array/index/free_axes.hpp"], [IA("a"), IA("b")], "ix::free_axes({a},{b})",
-   [(2, 1), (2, 2), (3, 2), (3, 3)], _g_free, _o_free, cx=False)
+   [(2, 1), (2, 2), (3, 2), (3, 3)], _g_free, _o_free, cx=False, core_dims=[(2, 3)])
 
 # --- shape_slice(shape, slices...): slices are (start,stop) / (start,stop,step) tuples of run-time ints, integers or Ellipsis;
 #     the kind varies for the shape only.  The slice pattern is part of the signature.
@@ -1652,7 +1659,7 @@ COMPOSITES = [n for n, o_ in OPS.items() if o_.composite]
 
 IA_UNIFORM = ["ct", "lit", "clt", "cla", "clv", "fx", "raw", "tp", "sv", "hy", "dy", "mdy", "mfx"]
 IA_T = {"fx": ["int", "size_t", "long"], "dy": ["int", "size_t"], "sv": ["int", "size_t"], "tp": ["int", "size_t"], "raw": ["int", "i8"],
-        "hy": ["int"], "mdy": ["size_t"], "mfx": ["int"]}
+        "hy": ["int"], "mdy": ["size_t"], "mfx": ["int"], "svt": ["int", "size_t"]}
 IS_FOR_IA = {"ct": "ct", "lit": "lit", "clt": "cl", "cla": "cl", "clv": "cl"}
 MIXED_IA = [("ct", "fx"), ("ct", "dy"), ("ct", "clt"), ("ct", "sv"), ("clt", "ct"), ("clt", "fx"), ("clt", "dy"), ("clt", "sv"),
             ("fx", "ct"), ("fx", "dy"), ("fx", "sv"), ("fx", "clt"), ("sv", "dy"), ("sv", "ct"), ("sv", "fx"), ("dy", "ct"), ("dy", "fx"),
@@ -1966,6 +1973,8 @@ class Group:
                 if k in ("fx", "raw", "tp", "mfx", "cla", "clt") and len(v) != sg["n"]:
                     return False
                 if k in ("sv", "hy", "clv") and len(v) > CAP:
+                    return False
+                if k == "svt" and len(v) > sg["n"]:
                     return False
                 if k == "clt" and any(x > m or x < a.lo for x, m in zip(v, sg["mx"])):
                     return False
